@@ -87,6 +87,10 @@ def _tlc_cases(module, cfg_text, wd, name, casefile, workers=4, simulate=None, d
                    tseed=vf.seed() if simulate else None, case_sink=sink, timeout=timeout)
     if r.violated:
         raise vf.MachineryError("spec-level check failed in %s/%s: %s (see %s)" % (module, name, r.violated, r.stdout_path))
+    if simulate and not r.generated:   # simulation mode prints its state count differently
+        m = re.search(r"The number of states generated: (\d+)", open(r.stdout_path).read())
+        if m:
+            r.generated = r.distinct = int(m.group(1))
     return r, cnt[0]
 
 
